@@ -99,9 +99,6 @@ def handle (line : String) : Out :=
       let vk ← vk.mapM parseVk
       let bw ← bw.mapM parseBw
       if !hasAlonzo && (!coll.isEmpty || !req.isEmpty) then none else
-      -- Dijkstra guards are a duplicate-free set: a repeated required signer does not decode
-      if base = "dijkstra" ∧ req.eraseDups.length ≠ req.length then
-        some { model := "decode-err", spec := "*" } else
       let required : List H := req.map (fun k => H.kh (VK.k k)) ++ wd.filterMap id
       let t : Tx VK SG H Nat Nat Nat :=
         { txId := 0, inputs := ins, collateral := coll, required := required,
